@@ -35,7 +35,7 @@ struct Ctx {
   Var v[kVars];
   uint32_t g = 12345;     // payload generator state
   uint8_t next() { g = g * 1664525u + 1013904223u; return (uint8_t)(g >> 24); }
-  bool compacted = false, grown = false; int failed_reservations = 0;
+  bool compacted = false, grown = false; int failed_reservations = 0, mid_consume = 0;
 };
 
 // size selection relative to the buffer's current shape
@@ -128,6 +128,14 @@ std::string run(const Scenario &s, CaseInfo &info) {
         size_t fill = big ? n : w;
         std::string d(fill, 0); for (auto &ch : d) ch = (char)c.next();
         if (fill) memcpy(p, d.data(), fill);
+        // between writing into the reserved window and committing it, the reader side may consume PART of the unread data
+        // (a partial consume only moves the read offset; consuming everything would rewind the buffer and is not done here)
+        if (op.in(5, 0, 3) >= 2 && x.m.size() >= 2) {
+          size_t kk = 1 + (size_t)op.in(4, 0, 1000) % (x.m.size() - 1);   // 1 .. readable-1
+          if (op.in(5, 0, 3) == 2) x.b->hasRead(kk);
+          else { std::unique_ptr<uint8_t[]> dst(new uint8_t[kk]); size_t r = x.b->fetch(dst.get(), kk); if (r != kk || memcmp(dst.get(), x.m.data(), kk) != 0) return "fetch between write and commit returned wrong data"; }
+          x.m.erase(0, kk); x.rd += kk; c.mid_consume++;
+        }
         size_t commit;
         switch (big ? op.in(3, 0, 1) : op.in(3, 0, 4)) { case 0: commit = n; break; case 1: commit = n / 2; break; case 2: commit = w; break; case 3: commit = w + 1 + (size_t)op.in(4, 0, 1000); break; default: commit = 0; }
         x.b->hasWritten(commit);
@@ -172,6 +180,7 @@ std::string run(const Scenario &s, CaseInfo &info) {
   }
   info.cls_if(c.compacted, "compaction_with_nonzero_read_offset");
   info.cls_if(c.grown, "growth_with_nonzero_read_offset");
+  info.cls_if(c.mid_consume > 0, "partial_consume_between_write_and_commit");
   info.cls_if(c.failed_reservations > 0, "reservation_failed_for_lack_of_memory_then_buffer_used_again");
   info.nontrivial = c.compacted && c.grown;
   return "";
@@ -180,7 +189,7 @@ std::string run(const Scenario &s, CaseInfo &info) {
 SubDef def = [] {
   SubDef d; d.name = "buffer";
   d.op_names = {"cfg", "append", "reserve", "fetch", "hasread", "readall", "shrink", "copyctor", "copyassign", "movector", "moveassign", "swap", "reset", "reservefail"};
-  d.op_arity = {4, 3, 5, 3, 3, 1, 1, 2, 2, 2, 2, 2, 1, 3};
+  d.op_arity = {4, 3, 6, 3, 3, 1, 1, 2, 2, 2, 2, 2, 1, 3};
   d.nt_rule = "history takes both the compaction branch and the growth branch of ensureWritableSize with a non-zero read offset and readable data";
   d.run = run;
 #ifndef VERIF_ENGINE_FUZZ
@@ -191,7 +200,7 @@ SubDef def = [] {
     auto sz = rc::gen::weightedOneOf<int64_t>({{4, range(0, 40)}, {3, range(0, 600)}, {1, range(0, 9000)}});
     auto opg = rc::gen::weightedOneOf<Op>({
       {8, mkop(APPEND, {var, mode7, sz})},
-      {5, mkop(RESERVE, {var, mode7, sz, range(0, 4), range(0, 1000)})},
+      {5, mkop(RESERVE, {var, mode7, sz, range(0, 4), range(0, 1000), range(0, 3)})},
       {6, mkop(FETCH, {var, mode10, sz})},
       {6, mkop(HASREAD, {var, mode10, sz})},
       {1, mkop(READALL, {var})},
